@@ -75,6 +75,8 @@ m("c08-hash-start", SS, 'alt((tag("!"), tag("$")))', 'alt((tag("!"), tag("$"), t
 m("c08-report-2-bytes", SS, "map(take(3u8), Into::into)(data)?;", "map(take(2u8), Into::into)(data)?;", ["C08"])
 m("c08-tagblock-mandatory", SS, 'opt(delimited(tag("\\\\"), take_until("\\\\"), tag("\\\\")))(data)?;', 'delimited(tag("\\\\"), take_until("\\\\"), tag("\\\\"))(data)?;', ["C08"])
 m("c08-id-mandatory", SS, "let (data, message_id) = opt(parse_u8_digit)(data)?;", "let (data, message_id) = map(parse_u8_digit, Some)(data)?;", ["C08"])
+n("n-c02-xor-loop", SS, "        let received_checksum = sentence.iter().fold(0u8, |acc, &item| acc ^ item);", "        let mut received_checksum = 0u8;\n        for item in sentence {\n            received_checksum ^= *item;\n        }", ["C02", "C01"])
+n("n-c05-clear-instead-of-default", SS, "                self.data = AisRawData::default();", "                self.data.clear();", ["C05", "C06", "C17"])
 n("n-c08-fill-le-5", SS, "|val| *val < 6", "|val| *val <= 5", ["C08"])
 # ---- C05 / C06 / C17
 m("c06-revert-F1", SS, "ais_sentence.fragment_number.checked_sub(self.fragment_number) != Some(1)", "ais_sentence.fragment_number - self.fragment_number != 1", ["C06"])
